@@ -4,8 +4,8 @@ from props import seqcases, C02 as _C02, C03 as _C03
 
 LEVEL = "other"
 TECHNIQUE = "bounded inductive contract check (CBMC) on the real container operations over an element model with a finalisation ledger / exceptional postconditions"
-LEVEL_TEXT = 'Exceptional postconditions inside the C02/C04/C08/C09/C19/C20 harnesses: every failing call (indices one past either end and further, empty pop, absent key/element, closed File, unimplemented class, non-heap receiver) must reach the throw stub with the documented exception object and with the receiver equal to its snapshot.'
-NOTE = 'exception_throw is noreturn (C07); OutOfMemoryError excluded (environment); bounded container sizes'
+LEVEL_TEXT = 'Exceptional postconditions inside the C02/C03/C04/C08/C09/C16/C19/C20 harnesses: every failing call in the enumerated domain (indices one past either end and further on both sides, pop from empty, absent key or element, closed File, unimplemented class or empty member, different plain types, non-heap receiver, absent substring) must reach the noreturn throw model with the documented exception object and with the receiver equal to its snapshot, and must not also return normally.'
+NOTE = "exception_throw is noreturn (C07); OutOfMemoryError excluded (environment); bounded container sizes; wrong-typed keys/values through the real cast are not exercised (cast is the element model's contract)"
 EXPLANATION = LEVEL_TEXT
 TRUSTED = []
 
